@@ -159,6 +159,12 @@ func genCase(rng *prng.R, idx int, reps int, lean bool) caseSpec {
 	if c.Kind == kindLossless {
 		c.Prio = -1 // the lossless converter takes no prioritized files
 	}
+	if lean && c.Prio < 0 && (c.Kind == kindEstargz || c.Kind == kindExtTOC) {
+		// fifth wave (C19-7): the constructors that take the caller's option slice always get
+		// it with spare capacity in the race stage (len 6 cap 8, as ctr-remote builds it), so
+		// that an in-place append by concurrently converted layers is a write to shared memory
+		c.Prio = idx % nMarkers
+	}
 	c.Retry = reps > 1 && rng.Chance(1, 3)
 	if c.external() {
 		c.Reconvert = rng.PickS("all", "mixed")
